@@ -60,6 +60,24 @@ async def run_scenario(sc):
                 # warm-up: run discovery before the stepping clock is installed
                 from puresnmp.pdu import GetRequest, PDUContent
                 await c.mpm.encode(1, c.credentials, b"", b"", GetRequest(PDUContent(1, [])))
+        if sc.get("recomm") and proto in ("v1", "v2c"):
+            # history: the client has exchanged messages under another community of the same family, then was re-configured: from now on
+            # responses are checked against the community in force (requests carry it, C05; here: the responses)
+            from puresnmp import V1, V2C
+            cls = V1 if proto == "v1" else V2C
+            ag.community = b"first"
+            c.configure(credentials=cls("first"))
+            try:
+                await c.get(OID("1.3.6.1.2.1.1.1.0"))
+            except Exception:  # noqa
+                pass
+            if sc["recomm"] == "block":
+                _blk = c.reconfigure(credentials=cls("public"))
+                _blk.__enter__()
+            else:
+                c.configure(credentials=cls("public"))
+            ag.community = b"public"
+            ag.nreq = 0
         if sc.get("engine_change"):
             # the agent is replaced / reset between discovery and the request: it answers the request with an unknownEngineID
             # Report; whatever the client does next (give up, or discover again and repeat), ids must still be checked
@@ -138,6 +156,11 @@ async def run_scenario(sc):
               if op == "get":
                   r = await c.get(oids[0])
               elif op == "multiget":
+                  if sc.get("again"):
+                      events_backup = list(events)
+                      await c.multiget(oids)
+                      del events[:]
+                      events.extend(events_backup)
                   r = await c.multiget(oids)
               elif op == "getnext":
                   r = await c.getnext(oids[0])
@@ -149,7 +172,15 @@ async def run_scenario(sc):
                   r = await c.multiset({o: mk_x690(v) for o, v in zip(oids, sc["setvals"])})
               elif op == "bulkget":
                   nr = sc.get("nr", 0)
-                  r = await c.bulkget(oids[:nr], oids[nr:], sc.get("mr", 1))
+                  sca, rep = oids[:nr], oids[nr:]
+                  if sc.get("again"):
+                      # a polling loop hands the SAME list objects to every call: an earlier call must not have changed them
+                      events_backup = list(events)
+                      await c.bulkget(sca, rep, sc.get("mr", 1))
+                      del events[:]
+                      events.extend(events_backup)
+                      ag.nreq = 0
+                  r = await c.bulkget(sca, rep, sc.get("mr", 1))
               else:
                   raise ValueError(op)
           events.append(dict(e="ret", kind="result", cls="", snmp=False, status=0, oid=[], data=abs_result(op, r)))
